@@ -18,6 +18,7 @@ def jobs(pid, tier, seed):
     n = 1500 if tier == "quick" else 30000
     out = [{"kind": "directed", "i": i} for i in range(len(DIRECTED))]
     out += [{"kind": "cut", "seed": seed * 1000003 + i} for i in range(n)]
+    out += [{"kind": "cut", "seed": seed * 1000003 + 5000000 + i, "life": 1} for i in range(n // 2)]
     return out
 
 
@@ -196,11 +197,29 @@ def run_job(pid, job, acc):
         acc.distinct.add(hhash([p, s]))
         return
     seed = job["seed"]
+    import random
+    r = random.Random(seed)
+    if job.get("life"):
+        # a channel life cycle with a restart in it: the restart is the cut (kept server: everybody merely drops)
+        from ..lifegen import LifeGen
+        h = LifeGen(seed, napps=2, restarts=True).gen()
+        cuts = [i for i, s in enumerate(h) if s[0] == "restart" and i >= 3]
+        if cuts:
+            cut = r.choice(cuts)
+            prefix, suffix = h[:cut], h[cut + 1:]
+        else:
+            cut = r.randrange(4, len(h))
+            prefix, suffix = h[:cut], h[cut:]
+        cfg = cfg_for(seed)
+        nfr = compare_at_cut(acc, prefix, suffix, cfg, seed, "lifecut:%d" % seed)
+        acc.cases += 1
+        acc.ev["c11_life_pair"] += 1
+        if nfr:
+            acc.distinct.add(hhash([prefix, suffix]))
+        return
     g = Gen(seed, **GEN)
     h = g.gen()
     cfg = cfg_for(seed)
-    import random
-    r = random.Random(seed)
     cut = r.randrange(4, len(h))
     prefix = h[:cut]
     if r.random() < 0.5:
